@@ -45,6 +45,21 @@ func c13Wrap(role string, text string) string {
 	return fmt.Sprintf(`{"items":[{"type":"message","role":"user","content":"ignored"},{"type":"message","role":%q,"content":%s}]}`, role, c)
 }
 
+type c13FullThenError struct {
+	data []byte
+	off  int
+}
+
+func (b *c13FullThenError) Read(p []byte) (int, error) {
+	if b.off < len(b.data) {
+		n := copy(p, b.data[b.off:])
+		b.off += n
+		return n, nil
+	}
+	return 0, io.ErrUnexpectedEOF
+}
+func (b *c13FullThenError) Close() error { return nil }
+
 var c13PadCache = map[int]string{}
 
 func c13Pad(n int) string {
@@ -142,6 +157,15 @@ func c13Alphabet() []c13Letter {
 		{name: "connection-dropped", retry: true, build: func(bool) (*http.Response, error) { return nil, errors.New("dial tcp: connection refused") }},
 		{name: "body-read-error", retry: true, build: func(bool) (*http.Response, error) {
 			return &http.Response{StatusCode: 200, Status: "200", Header: http.Header{}, Body: &c13BadReader{}}, nil
+		}},
+		// the transport fails AFTER a complete passing envelope was delivered (connection reset where
+		// more bytes were announced): a body-read fault all the same
+		{name: "complete-body-then-read-error", retry: true, build: func(s bool) (*http.Response, error) {
+			t := goodM
+			if s {
+				t = goodS
+			}
+			return &http.Response{StatusCode: 200, Status: "200", Header: http.Header{}, Body: &c13FullThenError{data: []byte(c13Wrap("assistant", t))}}, nil
 		}},
 		// HTTP bodies that START with a complete, passing envelope and continue with something else
 		// (a proxy error page, a stray brace, a second envelope): not JSON as a whole
